@@ -474,9 +474,11 @@ func c12Confirm(r *c12Run, err error) (violation string, inconclusive string) {
 		return err.Error(), ""
 	}
 	_, err2 := c12Replay(r.n, r.iv, r.ops, true)
-	if v2, ok := err2.(*c12Violation); ok {
+	if _, ok := err2.(*c12Violation); ok {
 		c12Confirmed = true
-		return err.Error() + "\n  confirmed by slow replay: " + strings.SplitN(v2.msg, "\n", 2)[0], ""
+		// (the message must not depend on whether the replay ran: rapid's shrinker
+		// requires identical messages from identical inputs)
+		return err.Error(), ""
 	}
 	return "", fmt.Sprintf("mismatch not reproduced by slow replay (%v): %s", err2, err.Error())
 }
@@ -735,4 +737,22 @@ func TestVerifC12RegressD3MoveEarly(t *testing.T) {
 	ops := c12Ticks(1)
 	ops = append(ops, c12Op{kind: 's', key: "k0", val: 1, steps: 1}, c12Op{kind: 'm', key: "k0", steps: 4})
 	c12Regress(t, 2, ops)
+}
+
+// D3, "late" shape shrunk by rapid (seed 3): the timer sits in the slot the position is
+// on.  Slots 3; tick; set(k0,3 ticks); move(k0,1 tick): due at tick 2, the unfixed wheel
+// fires it at tick 5.
+func TestVerifC12RegressD3MoveLateSameSlot(t *testing.T) {
+	ops := c12Ticks(1)
+	ops = append(ops, c12Op{kind: 's', key: "k0", val: 1, steps: 3}, c12Op{kind: 'm', key: "k0", steps: 1})
+	c12Regress(t, 3, ops)
+}
+
+// D3, "early" shape reached through SetTimer on a pending key, shrunk by rapid (seed 4).
+// Slots 5; tick*2; set(k0,v1,1 tick); set(k0,v2,9 ticks): due at tick 11, the unfixed
+// wheel fires it at tick 6.
+func TestVerifC12RegressD3ResetEarly(t *testing.T) {
+	ops := c12Ticks(2)
+	ops = append(ops, c12Op{kind: 's', key: "k0", val: 1, steps: 1}, c12Op{kind: 's', key: "k0", val: 2, steps: 9})
+	c12Regress(t, 5, ops)
 }
